@@ -100,9 +100,9 @@ const (
 	// Signer configuration flags
 
 	// FlagSignerType is a flag for specifying the signer type
-	FlagSignerType = "rollkit.signer.type"
+	FlagSignerType = "rollkit.signer.signer_type"
 	// FlagSignerPath is a flag for specifying the signer path
-	FlagSignerPath = "rollkit.signer.path"
+	FlagSignerPath = "rollkit.signer.signer_path"
 
 	// FlagSignerPassphrase is a flag for specifying the signer passphrase
 	//nolint:gosec
